@@ -53,7 +53,7 @@ PROPS["C03"] = {
 PROPS["C05"] = {
     "title": "A new version becomes active only when the promotion rule allows it",
     "level": "exploration",
-    "level_text": "The promotion lattice of the property (strategy x age-vs-duration incl. the boundary instants x noRestartsDuration x last restart x pause source x unpaused x canary-valid x failed x recorded active set present / being deleted under a finalizer / gone x recorded status.canary; 69120 points) is enumerated completely through the real ExtendedDaemonSet Reconcile on a store prepared by the real reconciler, on the virtual clock; each switch of status.activeReplicaSet is judged by a reference rule (three-valued at the boundary instants). The same rule is checked after every EDS reconcile of generated histories. A second job plays the complete product of failure routes x faults of the rollback's two-write window x pause x elapsed duration x reconcile order as histories and demands that a canary marked failed never becomes active (promotion-rule and canary-latch monitors after every reconcile, end-state check).",
+    "level_text": "The promotion lattice of the property (strategy x age-vs-duration incl. the boundary instants x noRestartsDuration x last restart x pause source x unpaused x canary-valid x failed x recorded active set present / being deleted under a finalizer / gone x recorded status.canary; 89856 points) is enumerated completely through the real ExtendedDaemonSet Reconcile on a store prepared by the real reconciler, on the virtual clock; each switch of status.activeReplicaSet is judged by a reference rule (three-valued at the boundary instants). The same rule is checked after every EDS reconcile of generated histories. A second job plays the complete product of failure routes x faults of the rollback's two-write window x pause x elapsed duration x reconcile order as histories and demands that a canary marked failed never becomes active (promotion-rule and canary-latch monitors after every reconcile, end-state check).",
     "level_note": "Exhaustive only for the finite lattice named here (exhaustive_subspaces in the evidence); durations other than the sampled ones and interleavings are covered by sampling in the history tests.",
     "technique": "exhaustive enumeration of a finite input lattice + property-based sampling (rapid) against a reference promotion rule; stateful histories with a per-reconcile invariant",
     "quick": {"jobs": [rapid_job("lattice-sample", "^TestC05Lattice$", 1500), rapid_job("lattice-all", "^TestC05Exhaustive$", 1, shards=4), rapid_job("failed-stays", "^TestC05FailedStays$", 1, shards=4)]},
@@ -110,8 +110,8 @@ PROPS["C08"] = {
     "level_text": "Stateful property test in which the four annotations are set, flipped and removed (true/false/absent/garbage) in generated order over rollouts in progress; after every sync: no update-deletion under rolling-update-paused, no create and no update-deletion under rollout-frozen, creation still happens under pause when nothing else gates it, no canary pod created in a sync that is or ends paused/failed, time never promotes a paused canary, status.state/reason agree with annotations and canary facts; afterwards the annotations are removed (canary unpaused/validated) and the history must converge (resume).",
     "level_note": SM_NOTE,
     "technique": "stateful property-based testing (rapid) with per-step invariants + convergence oracle for 'resume'",
-    "quick": {"jobs": [rapid_job("sm", "^TestC08SM$", 500, shards=4), rapid_job("toggles", "^TestC08Toggles$", 1, shards=2)]},
-    "thorough": {"jobs": [rapid_job("sm", "^TestC08SM$", 2500, shards=14, timeout="50m"), rapid_job("toggles", "^TestC08Toggles$", 1, shards=2)]},
+    "quick": {"jobs": [rapid_job("sm", "^TestC08SM$", 500, shards=4), rapid_job("toggles", "^TestC08Toggles$", 1, shards=2), rapid_job("failed-canary-held", "^TestC08FailedCanaryHeld$", 1, shards=4)]},
+    "thorough": {"jobs": [rapid_job("sm", "^TestC08SM$", 2500, shards=14, timeout="50m"), rapid_job("toggles", "^TestC08Toggles$", 1, shards=2), rapid_job("failed-canary-held", "^TestC08FailedCanaryHeld$", 1, shards=4)]},
 }
 
 PROPS["C09"] = {
@@ -185,8 +185,8 @@ PROPS["C10"] = {
     "level_text": "Generated pod templates (nodeSelector, 0-2 required affinity terms with or without matchFields on metadata.name, tolerations, 1-3 containers with resources), nodes (labels; override annotations well-formed, malformed, or of another ExtendedDaemonSet), optional valid setting (subset of containers, a container absent from the template) and both node-assignment modes are fed to the exported CreatePodFromDaemonSetReplicaSet; the oracle checks the pin (nodeName, or the node-name requirement In [node] on every affinity term with the template's matchExpressions preserved), controller owner reference, name labels, template hash, the six default tolerations plus the template's, and per-container resources = annotation override else setting else template. Then a round trip: the pod goes through the API (JSON) and the exported ManageDeployment with an unlimited budget must keep it for the same inputs and must replace it after a template change, an override annotation added/removed, a changed or newly applying setting demand; a foreign EDS's annotation must not matter.",
     "level_note": "Trusted: the resource-resolution order as stated in the property; ManageDeployment with N=1, maxUnavailable=100% as the 'would be replaced' observer (cross-checkable with the CompareCurrentPodWithNewPodForVerif shim).",
     "technique": "property-based testing (rapid): reference-model oracle on the created object + round-trip/metamorphic relations through the controller's own comparison",
-    "quick": {"jobs": [rapid_job("created-pod", "^TestC10CreatedPod$", 2500, shards=4)]},
-    "thorough": {"jobs": [rapid_job("created-pod", "^TestC10CreatedPod$", 25000, shards=12, timeout="50m"), fuzz_job("fuzz-annotation", "^FuzzC10Annotation$", fuzztime="90s", workers=4)]},
+    "quick": {"jobs": [rapid_job("created-pod", "^TestC10CreatedPod$", 2500, shards=4), rapid_job("through-create-pods", "^TestC10ThroughCreatePods$", 3000, requires="verif_par")]},
+    "thorough": {"jobs": [rapid_job("created-pod", "^TestC10CreatedPod$", 25000, shards=12, timeout="50m"), fuzz_job("fuzz-annotation", "^FuzzC10Annotation$", fuzztime="90s", workers=4), rapid_job("through-create-pods", "^TestC10ThroughCreatePods$", 40000, shards=2, requires="verif_par")]},
     "log_violations": True,
 }
 
